@@ -34,7 +34,9 @@ TRUSTED = [
     "edges are connected (two parallel active edges form a 2-cycle); 'one simple path with >= 1 edge' = degrees <= 2, connected, "
     "exactly two vertices of degree 1; 'visited' = positive active degree; a self-loop contributes 2 to its vertex's degree, so "
     "one active loop alone is a cycle (of length one) and never part of a path -- the Coq specification, the Python oracle and "
-    "the code agree on this reading (checked on every run)",
+    "the code agree on this reading (checked on every run); the degree/connectivity reading is proved equivalent to the explicit "
+    "list reading (a cyclic list v0,e0,..,v(k-1),e(k-1) resp. an open list v0,e0,..,vk of pairwise distinct vertices and edges "
+    "made of exactly the active edges): Props/C06.v cycle_list_iff, path_list_iff",
     "z3 (used in search only, on the really posted constraints) and harness/graphcap.py oracles; before the constraints are "
     "handed to z3 the harness replaces BOOL_CONSTANT / INT_CONSTANT nodes by the literal they hold (pC06.unconst), so that the "
     "search does not depend on the z3 backend's translation of constant nodes (property C01)",
